@@ -115,6 +115,9 @@ impl<T, S: NodeState> Node<T, S> {
     ) -> Option<&'r NodeData<T>> {
         for child in &self.dynamic_constrained_children {
             let segment_end = path.iter().position(|&b| b == b'/').unwrap_or(path.len());
+            if segment_end == 0 {
+                return None;
+            }
 
             let segment = &path[..segment_end];
             if !Self::check_constraint(Some(&child.state.constraint), segment, constraints) {
@@ -197,6 +200,9 @@ impl<T, S: NodeState> Node<T, S> {
     ) -> Option<&'r NodeData<T>> {
         for child in &self.dynamic_children {
             let segment_end = path.iter().position(|&b| b == b'/').unwrap_or(path.len());
+            if segment_end == 0 {
+                return None;
+            }
 
             let segment = &path[..segment_end];
 
